@@ -158,6 +158,12 @@ structure HStru (α : Type) where
 
 def Heap.read (h : Heap α β) (refs : List Nat) : List (Atom α β) := refs.filterMap (h.atoms[·]?)
 
+/-- a test on atoms applied through a reference -/
+def refTest (A : List (Atom α β)) (q : Atom α β → Bool) (r : Nat) : Bool :=
+  match A[r]? with
+  | some p => q p
+  | none => false
+
 def HStru.value (h : Heap α β) (S : HStru α) : Stru α β := ⟨S.cell, h.read S.refs⟩
 
 /-- `supercell` on the heap: every atom of the result is a newly allocated object (`Atom(a)` in
@@ -230,6 +236,26 @@ def makeEllipsoid (S : Stru α β) (a : α) (b c : Option α) : Except Err (Stru
 
 /-- `makeSphere(S, radius)` -/
 def makeSphere (S : Stru α β) (radius : α) : Except Err (Stru α β) := makeEllipsoid S radius none none
+
+/-- `makeEllipsoid` on the heap: the block is the freshly allocated structure of `supercellH`; the
+deleting loop `newS.pop(i)` only removes references from that new structure's own list -/
+def ellipsoidWithH (h : Heap α β) (S : HStru α) (sabc : Vec3 α) (k : Int) :
+    Except Err (Heap α β × HStru α) :=
+  match supercellH h S [k, k, k] with
+  | .error e => .error e
+  | .ok (h', T) =>
+    match centreIndex (T.value h') with
+    | none => .error .IndexError
+    | some nc =>
+      match (T.value h').atoms[nc]? with
+      | none => .error .IndexError
+      | some ca =>
+        .ok (h', ⟨T.cell, T.refs.filter (refTest h'.atoms (keeps T.cell sabc (T.cell.cartesian ca.xyz)))⟩)
+
+def makeEllipsoidH (h : Heap α β) (S : HStru α) (a : α) (b c : Option α) :
+    Except Err (Heap α β × HStru α) :=
+  let sabc : Vec3 α := ⟨a, b.getD a, c.getD a⟩
+  ellipsoidWithH h S sabc (ellMno S.cell sabc)
 
 end ellipsoid
 
